@@ -82,8 +82,14 @@ def r_cache_key(rule, root=None):
         ("the new child starts with empty tape caches and no child of its own", "Box::new(RenderHandle{shape:next,i_tape:None,f_tape:None,g_tape:None,next:None})"),
         ("the key is stored next to the child it was built for", "self.next=Some((trace_storage.unwrap(),Box::new("),
         ("an unhelpful simplification is recycled and the parent used instead", "if(next.size()>=self.shape.size()){shape_storage.extend(next.recycle());self}"),
-        ("a new child is only built when no reusable one is cached", "ifself.next.is_none(){"),
     ]
+    # a new child is only built when no reusable one is cached - whichever branch that is
+    mk = [c for c in A.find(fn["body"], "MethodCall") if c["method"] == "simplify" and str(A.ftxt(A.strip(c["recv"]))) == "self.shape"]
+    cs_ = [A.norm_cond(c) for c in (A.enclosing_conds(fn["body"], mk[0]) or [])] if len(mk) == 1 else []
+    if "self.next.is_none()" in cs_ or "!self.next.is_some()" in cs_:
+        rule.ok("RenderHandle::simplify: a new child is only built when no reusable one is cached", file=RM, line=fn["ln"])
+    else:
+        rule.bad("cache|a new child is only built wh", "RenderHandle::simplify: a new child is only built when no reusable one is cached (the `self.shape.simplify(..)` call must sit under `self.next.is_none()`; found %s)" % cs_, A.where(fn))
     for what, frag in need:
         if frag in t:
             rule.ok("RenderHandle::simplify: %s" % what, file=RM, line=fn["ln"])
